@@ -21,6 +21,19 @@ CHECKS = {
             'Trusted: the list reference model; the canonical form (reference list + walk of the internal linked list) '
             'is at least as fine as everything the oracle observes. Element values outside the palettes are not explored.',
             'DESIGN.md section 5, C17'),
+    'C02': ('explorer',
+            'explicit-state BFS to closure over real metamodels (new/relate/unrelate/delete) against a relational reference model',
+            'For each of nine association shapes (1C:1C, 1:MC, formalised on the other side, M:M, reflexive 1C:1C and 1:MC '
+            'with phrases, association class, reflexive association class with phrases, sub/super sharing the identifier) '
+            'the complete state space reachable with bounded instance pools is searched; in every state every operation of '
+            'the menu (every ordered pair of live instances, every relationship number incl. an unknown one, every phrase '
+            'incl. none/unknown, both spellings of the number, None arguments, delete incl. repeated delete) is executed on '
+            'the real metamodel and on the reference; after every transition: outcome class, symmetry of navigation in both '
+            'directions, liveness of everything reachable, referential attribute reads, full equality with the reference, '
+            'exact equality with the previous observation after every rejected call, and relate/unrelate round trip.',
+            'Trusted: mc/refs/relmodel.py (reference semantics). Bounds: instances ever created per class capped (2 quick, '
+            '3-4 thorough); closure under the cap. Canonical form renames instances per class in creation order.',
+            'DESIGN.md section 5, C02'),
 }
 
 NOT_YET = 'check not built yet in this revision (planned, see DESIGN.md section 5); not claimed until it exists'
